@@ -111,6 +111,85 @@ def fuzz_case(case, prop):
                       counts=counts, gray=gray, sample=sample, maxes=worst)
 
 
+def ulp_case(case, prop):
+    """Mirror-image variables (same gradient component up to one ulp, Hessian
+    symmetric under their exchange, same bounds): both reach their bounds at
+    angles / step lengths that differ in the last bit.  400 instances per
+    case, all three trust-region solvers, every postcondition."""
+    rng = e2e.rng_of("SUBULP", case)
+    if not _contracted:
+        worker_init()
+    viols = []
+    counts = {"subproblems": 0, "instances": 0}
+    worst = {}
+    gray = 0
+    nt = set()
+    for b in range(400):
+        n = int(rng.integers(3, 5))
+        scale = float(10.0 ** rng.integers(-3, 4)) if rng.random() < 0.3 \
+            else 1.0
+        g = rng.standard_normal(n)
+        g[1] = np.nextafter(g[0], np.inf) if rng.random() < 0.7 else g[0]
+        bb = rng.standard_normal((n, n))
+        h = 0.5 * (bb + bb.T) / scale
+        h[1, 1] = h[0, 0]
+        h[1, 2:] = h[0, 2:]
+        h[2:, 1] = h[2:, 0]
+        xl = np.full(n, -np.inf)
+        xu = np.full(n, np.inf)
+        xl[0] = xl[1] = -float(rng.uniform(0.2, 0.9)) * scale
+        xu[0] = xu[1] = float(rng.uniform(0.2, 0.9)) * scale
+        delta = scale * float(rng.uniform(0.8, 1.3))
+        aeq = rng.standard_normal((2, n))
+        aeq[:, 1] = aeq[:, 0]
+        beq = rng.standard_normal(2) * 3 * scale
+        counts["instances"] += 1
+
+        def hp(v, h=h):
+            return h @ v
+        calls = [("tangential_byrd_omojokun",
+                  (g, hp, xl.copy(), xu.copy(), delta, False),
+                  {"improve_tcg": True}),
+                 ("normal_byrd_omojokun",
+                  (np.zeros((0, n)), np.zeros(0), aeq, beq.copy(), xl.copy(),
+                   xu.copy(), delta, False), {"improve_tcg": True}),
+                 ("constrained_tangential_byrd_omojokun",
+                  (g, hp, xl.copy(), xu.copy(), np.zeros((0, n)), np.zeros(0),
+                   np.zeros((0, n)), delta, False), {"improve_tcg": True})]
+        for name, args, kw in calls:
+            col = subs.collecting(subs.Collector())
+            counts["subproblems"] += 1
+            with warnings.catch_warnings():
+                warnings.simplefilter("ignore")
+                with np.errstate(all="ignore"):
+                    try:
+                        _contracted[name](*args, **kw)
+                    except Exception as exc:  # noqa: BLE001
+                        if prop == "C15":
+                            viols.append(V(
+                                "exception", f"{name} raised "
+                                f"{type(exc).__name__}: {str(exc)[:150]}",
+                                mechanism=name + ":" + type(exc).__name__))
+            subs.collecting(None)
+            counts["postconditions"] = counts.get("postconditions", 0) \
+                + col.checked
+            gray += col.gray
+            for k, v in col.worst.items():
+                worst[k] = max(worst.get(k, 0.0), v)
+            viols += _viol_records(col, prop, {
+                "solver": name, "kwargs": kw,
+                "inputs": {"g": g, "h": h, "xl": xl, "xu": xu,
+                           "delta": delta, "aeq": aeq, "beq": beq},
+                "degeneracies": ["ulp_ties"]})
+            side = "+".join(sorted(t for t in col.tags
+                                   if t in ("on_bound", "on_ball")))
+            nt.add(name[:4] + "|ulp_ties|" + side)
+        if len(viols) > 6:
+            break
+    return e2e.record(case, viols[:6], nt=sorted(nt), tags=["fam:ulp_ties"],
+                      counts=counts, gray=gray, maxes=worst)
+
+
 def real_case(case, prop):
     rng = e2e.rng_of("SUBREAL", case)
     spec = gen.general(rng, maxfev=(30, 150), forms=("nlc", "dict_ineq"),
